@@ -315,9 +315,9 @@ def get_object_results(
     if not estimated_objects:
         return []
 
-    # There is no GT and not FP validation (= all FP)
-    if not ground_truth_objects and evaluation_task.is_fp_validation() is False:
-        return _get_fp_object_results(estimated_objects)
+    # There is no GT: all FP, which are ignored in FP validation
+    if not ground_truth_objects:
+        return [] if evaluation_task.is_fp_validation() else _get_fp_object_results(estimated_objects)
 
     assert isinstance(
         ground_truth_objects[0], type(estimated_objects[0])
